@@ -62,6 +62,7 @@ class Analysis:
     self.locals, self.params = local_names(fn)
     self.reports = []      # (name, lineno, reason)
     self.guards = []       # stack of (test text, names of the test, set of names bound under it) currently known true
+    self.exits = []        # sets of bound names at every normal exit (return / end of body)
     self.first_iter = {}   # id(If node) -> names its else branch may rely on (first-iteration initialisation idiom)
 
   # --- expressions: report reads, return names bound by walrus
@@ -157,6 +158,7 @@ class Analysis:
       return set(have) | self.reads(s.value, have), [], []
     if isinstance(s, ast.Return):
       self.reads(s.value, have)
+      self.exits.append(set(have))
       return None, [], []
     if isinstance(s, ast.Raise):
       self.reads(s.exc, have)
@@ -371,7 +373,9 @@ class Analysis:
     have = set(self.params)
     for d in self.fn.args.defaults + [x for x in self.fn.args.kw_defaults if x is not None]:
       pass
-    self.block(self.fn.body, have)
+    end, _, _ = self.block(self.fn.body, have)
+    if end is not None:
+      self.exits.append(set(end))
     # a rebinding of a guard's names between the two ifs is not tracked: drop reports only when the guard mechanism accepted them (done inline)
     out, seen = [], set()
     for r in self.reports:
@@ -401,3 +405,30 @@ def functions(tree):
         visit(ch, prefix)
   visit(tree, "")
   return out
+
+
+class _SelfAttrs(ast.NodeTransformer):
+  def __init__(self, selfname):
+    self.selfname = selfname
+
+  def visit_Attribute(self, node):
+    self.generic_visit(node)
+    if isinstance(node.value, ast.Name) and node.value.id == self.selfname:
+      return ast.copy_location(ast.Name(id="@" + node.attr, ctx=node.ctx), node)
+    return node
+
+
+def attrs_bound_by(fn):
+  """attributes `self.x` that are bound on every path to a normal exit of the method fn (a constructor, usually)"""
+  import copy
+  if not fn.args.args:
+    return set()
+  selfname = fn.args.args[0].arg
+  fn2 = _SelfAttrs(selfname).visit(copy.deepcopy(fn))
+  ast.fix_missing_locations(fn2)
+  an = Analysis(fn2)
+  an.run()
+  if not an.exits:
+    return set()
+  common = set.intersection(*an.exits)
+  return {x[1:] for x in common if x.startswith("@")}
